@@ -143,6 +143,7 @@ def from_array(
         ftype = _infer_ftype(data)
         check_ftype = False  # already done
     if ftype == "nextxy":
+        data = np.asarray(data)  # ([:,:], [:,:]) or [2,:,:]
         shape = data[0].shape
         ndim = data[0].ndim
     else:
